@@ -86,6 +86,9 @@ type pathCtx struct {
 	atomStrUsed   bool
 	hangCheck     bool
 	atomTerms     []string // atom-valued terms whose model class is needed for the tape (UF results)
+	gateTerms     []string
+	schedFill     func()
+	opaqueItoa    bool
 }
 
 func newPathCtx(run *Run, sol *solver, prefix []int32) *pathCtx {
@@ -463,6 +466,15 @@ func (p *pathCtx) model() (map[string]interface{}, error) {
 	for _, l := range p.litOrder {
 		add(p.lits[l])
 	}
+	sched, _ := tape["schedule"].([]interface{})
+	for _, g := range sched {
+		if m, ok := g.(map[string]interface{}); ok {
+			add(m["term"].(string))
+			if m["atom"].(bool) {
+				add("(iri_host " + m["term"].(string) + ")")
+			}
+		}
+	}
 	if len(terms) == 0 {
 		return tape, nil
 	}
@@ -492,6 +504,11 @@ func (p *pathCtx) model() (map[string]interface{}, error) {
 	for _, u := range p.ufApps {
 		if u.Kind == "iri" {
 			note(u.App)
+		}
+	}
+	for _, g := range sched {
+		if m, ok := g.(map[string]interface{}); ok && m["atom"].(bool) {
+			note(m["term"].(string))
 		}
 	}
 	classIdx := map[string]int{}
@@ -533,6 +550,21 @@ func (p *pathCtx) model() (map[string]interface{}, error) {
 		case "iri":
 			tape[in.Tag] = atomText(raw)
 		}
+	}
+	if len(sched) > 0 {
+		out := make([]interface{}, len(sched))
+		for k, g := range sched {
+			out[k] = g
+			if m, ok := g.(map[string]interface{}); ok {
+				if m["atom"].(bool) {
+					out[k] = m["kind"].(string) + ":" + atomText(vals[m["term"].(string)])
+				} else {
+					s, _ := decodeSMTString(vals[m["term"].(string)])
+					out[k] = m["kind"].(string) + ":" + s
+				}
+			}
+		}
+		tape["schedule"] = out
 	}
 	for _, u := range p.ufApps {
 		var arg string
@@ -660,6 +692,9 @@ func (p *pathCtx) pattern() string {
 // violation records a failed assertion; the solver must be in a state
 // where (get-value) is legal if haveModel.
 func (p *pathCtx) violation(kind, label, site, msg string, haveModel bool, query string) {
+	if p.schedFill != nil {
+		p.schedFill()
+	}
 	v := &Violation{Harness: p.harness, Label: label, Kind: kind, Site: site, Msg: msg,
 		Decisions: append([]int32(nil), p.trace...), PCs: append([]string(nil), p.pcs...), Query: query}
 	if haveModel {
